@@ -51,8 +51,8 @@ def layering_defect(tm, want, groups):
     if set(idx) != set(want):
         return "groups contain %s, requested %s" % (sorted(idx), sorted(want))
     for t in want:
-        for u in want:
-            if dep(tm, t, u) and not idx[u] < idx[t]:
+        for u in closure(tm, [t]):   # transitive: also through targets that are not part of the groups
+            if u != t and u in want and not idx[u] < idx[t]:
                 return "%s depends on %s but group %d !< %d" % (t, u, idx[u], idx[t])
     return None
 
